@@ -34,6 +34,9 @@ pub struct Bounds {
     pub deviations: usize,
     /// stop after this many executions (reported as not exhaustive)
     pub max_execs: u64,
+    /// delay bounding instead of preemption bounding: `preemptions` then counts every departure
+    /// from the canonical scheduler (lowest thread id first), for programs with many threads
+    pub delay: bool,
 }
 
 pub struct Explored {
@@ -49,6 +52,10 @@ pub struct Explored {
     pub sample: Option<String>,
 }
 
+thread_local! {
+    static DELAY: std::cell::Cell<bool> = const { std::cell::Cell::new(false) };
+}
+
 fn run(scn: &dyn Scenario, prefix: Vec<usize>, sigs: Vec<u64>, keep_trace: bool) -> rt::Outcome<Verdict> {
     let (body, judge) = scn.make();
     rt::run_one(
@@ -57,6 +64,7 @@ fn run(scn: &dyn Scenario, prefix: Vec<usize>, sigs: Vec<u64>, keep_trace: bool)
             prefix_sigs: sigs,
             max_steps: scn.max_steps(),
             keep_trace,
+            delay: DELAY.with(|d| d.get()),
         },
         body,
         judge,
@@ -93,6 +101,7 @@ fn next_prefix(pts: &[PointRec], b: &Bounds) -> Option<Vec<usize>> {
 }
 
 pub fn explore(scn: &dyn Scenario, b: Bounds, stop_at_first: bool) -> Explored {
+    DELAY.with(|d| d.set(b.delay));
     let mut ex = Explored {
         execs: 0,
         steps: 0,
@@ -211,6 +220,7 @@ pub fn check(rep: &mut Report, scn: &dyn Scenario, b: Bounds, spec: &str) {
                         preemptions: pb,
                         deviations: b.deviations,
                         max_execs: b.max_execs,
+                        delay: b.delay,
                     },
                     true,
                 );
